@@ -29,7 +29,7 @@ func NumClasses(t *Type, f *Field) int {
 		}
 		return 7
 	case "tlv":
-		return 7
+		return 8
 	}
 	return 1
 }
@@ -241,7 +241,11 @@ func GenTLVs(r *fw.Rng, class int) []TLV {
 			if ln < 0 {
 				ln = r.Range(0, 40)
 			}
-			l = append(l, TLV{Tag: tag, Len: uint16(ln), Val: r.Bytes(ln)})
+			val := r.Bytes(ln)
+			if ln > 0 && r.Chance(1, 6) {
+				val[ln-1] = 0 // C-octet-string valued parameters carry their terminator inside the value
+			}
+			l = append(l, TLV{Tag: tag, Len: uint16(ln), Val: val})
 		}
 		return l
 	}
@@ -260,6 +264,8 @@ func GenTLVs(r *fw.Rng, class int) []TLV {
 		return mk(1, 65531)
 	case 6:
 		return mk(r.Range(8, 16), -1, 0, 1, 2)
+	case 7: // many parameters (no document limits their number)
+		return mk(r.Pick(31, 32, 33, 34, 40, 64, 100), -1, 0, 1, 2)
 	}
 	return mk(r.Range(0, 3), -1)
 }
